@@ -1,5 +1,5 @@
 (* C01 — Markup without directives is reproduced unchanged. Theorems only. *)
-From Tpl Require Import Html.Exec Proofs.ScanSpec Proofs.ExecSpec Proofs.ScanConcat Proofs.BuildFlatten Proofs.RenderPlain Proofs.TagPrint Proofs.TagPrintTree.
+From Tpl Require Import Html.Exec Proofs.ScanSpec Proofs.ExecSpec Proofs.ScanConcat Proofs.BuildFlatten Proofs.RenderPlain Proofs.TagPrint Proofs.TagPrintTree Proofs.IdempotentMain.
 From Tpl Require Proofs.TagShape.
 Open Scope N_scope.
 
@@ -68,6 +68,28 @@ Theorem render_differs_only_by_space : forall is_space to_lower text_tags attr_p
   exists outs, print_plain (build tree_lower void_elements toks) = concat outs /\
     Forall2 (fun t o => (t_kind t <> KTag -> o = t_value t) /\ nsp is_space o = nsp is_space (t_value t)) toks outs.
 Proof. exact TagPrintTree.render_differs_only_by_space. Qed.
+(* "and rendering the output again yields the same output": the render of a directive-free document is a fixed point.
+   out = the printed tree of the scanned source; scanning out succeeds, gives token for token the same kinds, names,
+   attribute names and raw values (texts, comments, CDATA and element-closing tags byte-identical), contains no directive
+   either, and printing its tree gives out again.  [compile] only has to accept attributes without the directive prefix;
+   raw-text elements, stray and blank-ridden close tags, empty names, '<p a=>' etc. are all covered (no restriction on
+   text_tags / void_elements). *)
+Theorem render_idempotent : forall is_space to_lower text_tags attr_prefix,
+  is_space cSP = true -> is_space cGT = false -> is_space cEQ = false -> is_space cDQ = false -> is_space cLT = false ->
+  (forall c, to_lower c = cSLASH -> c = cSLASH) ->
+  forall (compile : attr -> bool) tree_lower void_elements src toks,
+  (forall a, prefixb attr_prefix (a_name a) = false -> compile a = true) ->
+  scan is_space to_lower text_tags attr_prefix compile src = inl toks ->
+  directive_free attr_prefix toks ->
+  let out := print_plain (build tree_lower void_elements toks) in
+  exists toks2, scan is_space to_lower text_tags attr_prefix compile out = inl toks2 /\
+    Idempotent.rel3 toks (ptoks tree_lower void_elements 0 toks) toks2 /\
+    map PrintScanDefs.shape_of toks2 = map PrintScanDefs.shape_of toks /\
+    print_plain (build tree_lower void_elements toks2) = out /\
+    directive_free attr_prefix toks2.
+Proof. exact IdempotentMain.render_idempotent_plain. Qed.
+Print Assumptions render_idempotent.
+(* necessity of the oracle hypotheses and a 17-token instance: Proofs/IdempotentExample.v *)
 Print Assumptions tag_print_nonspace.
 Print Assumptions tag_source_shape_open.
 Print Assumptions print_plain_tokens.
